@@ -152,7 +152,7 @@ def sec_dense(st):
         st.add('dense', 'to', 'result_eqb dense_c_eqb (result_map dense_compress (%s)) %s' % (m, result_lit(ro, dense_lit)),
                {'a': xobs_json(oa), 'dtype': dt, 'impl': [ro[1][0], [[k, str(v)] for k, v in ro[1][1]]] if ro[0] == 'ok' else ro[1]}, m, bool(oa['idx']))
         if r[0] != 'ok':
-            if all(v <= 65535 for _, v in oa['cnt']) or dt not in (None, 'uint16'):
+            if not ((dt == 'uint16' or (dt is None and spec['kind'] == 'KCount')) and any(v > 65535 for _, v in oa['cnt'])):
                 st.prop_fail('dense', 'to_vector raised %s inside the dtype range' % r[1], {'a': xobs_json(oa), 'dtype': dt})
             continue
         vec = r[1]
@@ -214,7 +214,7 @@ def sec_csr(st):
         st.add('csr', 'to', 'result_eqb csr_eqb (%s) %s' % (m, result_lit(ro, csr_lit)),
                {'a': xobs_json(oa), 'dtype': dt, 'impl': [ro[1][0], [[k, str(v)] for k, v in ro[1][1]]] if ro[0] == 'ok' else ro[1]}, m, bool(oa['idx']))
         if r[0] != 'ok':
-            if all(v <= 65535 for _, v in oa['cnt']) or dt not in (None, 'uint16'):
+            if not ((dt == 'uint16' or (dt is None and spec['kind'] == 'KCount')) and any(v > 65535 for _, v in oa['cnt'])):
                 st.prop_fail('csr', 'to_vector raised %s inside the dtype range' % r[1], {'a': xobs_json(oa), 'dtype': dt})
             continue
         mat = r[1]
@@ -474,15 +474,17 @@ def sec_files(st):
 
 # ------------------------------------------------------------------------------------------------ dtype limit
 def sec_dtype_limit(st):
-    """count_dtype_limit on the implementation: the uint16 forms exist iff every count <= 65535."""
+    """count_dtype_limit on the implementation: the uint16 forms exist iff every count <= the dtype's maximum."""
+    import e3fp.fingerprint.fprint as FP
     rng, C = st.rng, fpgen.classes()
+    lim = int(np.iinfo(FP.COUNT_FP_DTYPE).max)
     for i in range(st.ctx.n(40, 400)):
         bits = rng.choice([8, 64, 4096, 2 ** 32])
         idx = fpio.rand_index_set(rng, bits) or [0]
-        cnt = {k: rng.choice([1, 2, 65534, 65535]) for k in idx}
+        cnt = {k: rng.choice([1, 2, lim - 1, lim]) for k in idx}
         over = rng.random() < 0.5
         if over:
-            cnt[rng.choice(idx)] = rng.choice([65536, 65537, 2 ** 20])
+            cnt[rng.choice(idx)] = rng.choice([lim + 1, lim + 2, 16 * (lim + 1)])
         a = C['KCount'].from_counts(cnt, bits=bits)
         oa = xobs(a)
         for sparse in (True, False):
